@@ -227,6 +227,10 @@ func init() {
 		"fmt.Print": simple(func(e *Engine, s *State, a []Value, at ssa.Instruction, f *ssa.Function) Value {
 			return e.opaqueResult(s, f.Signature.Results(), "print")
 		}),
+		// proto.Clone: deep copy of the message (unknown fields and internal state are zero in harness-built messages)
+		"google.golang.org/protobuf/proto.Clone": simple(func(e *Engine, s *State, a []Value, at ssa.Instruction, _ *ssa.Function) Value {
+			return e.deepCopy(s, a[0], map[int]int{})
+		}),
 		"reflect.DeepEqual": simple(func(e *Engine, s *State, a []Value, at ssa.Instruction, _ *ssa.Function) Value {
 			return Sc{e.deepEq(s, a[0], a[1], true, 0)}
 		}),
